@@ -9,6 +9,7 @@
      by-column, default-grid partial dependence.
 """
 import math
+import copy
 import warnings
 from fractions import Fraction
 
@@ -86,6 +87,21 @@ def make_scenario(rng, cls, want, tier):
                 scn['specs'] = specs[:2] + [s]
                 return scn
             continue
+        if want == 'twin':
+            # two terms on the same feature with identical basis settings that differ only in the by-variable and / or the penalty weight:
+            # each must still contribute its own columns
+            numeric = [j for j in range(nf) if j not in scn['factor_feats']]
+            cand = [s for s in specs if s['kind'] in ('s', 'l') and s['feature'] in numeric]
+            if not cand or nf < 2:
+                continue
+            a = rng.choice(cand)
+            b = copy.deepcopy(a)
+            b['lam'] = [float(v) * 3.0 for v in a['lam']]
+            others = [j for j in numeric if j != a['feature']] or [j for j in range(nf) if j != a['feature']]
+            if a['kind'] == 's' and rng.random() < 0.8:
+                b['by'] = None if has_by(a) else rng.choice(others)
+            scn['specs'] = [s for s in specs if s is not a][:1] + ([a, b] if rng.random() < 0.5 else [b, a])
+            return scn
         if want_ok(specs, want):
             return scn
     return scn
@@ -323,7 +339,7 @@ def ambiguous_rows(terms, X):
     sl = [s for t in terms for s in c16.spline_like(t)]
     out = []
     for r in range(len(X)):
-        out.append(any(c03.alternatives(X[r, f], ek, n, k, per) or c03.in_gap(X[r, f], ek, per) for (f, ek, n, k, per) in sl))
+        out.append(any(c03.alternatives(X[r, f], ek, n, k, per) or c03.in_sliver(X[r, f], ek, per) for (f, ek, n, k, per) in sl))
     return out
 
 
@@ -384,17 +400,17 @@ def mu_goals(scn, gam, Xq):
     return goals, meta
 
 
-WANTS = ['any', 'tensor', 'by', 'factor', 'tensor-by', 'spline-by', 'any', 'tensor']
+WANTS = ['any', 'tensor', 'by', 'factor', 'tensor-by', 'spline-by', 'twin', 'tensor']
 
 
 def run(res):
     rng = common.rng_for(res.seed, PROP)
     nfits = 48 if res.tier == 'quick' else 600
     res.rule = ('seeded fitted models: the six model classes in turn x term mixes from harness/gen_models.py (splines ps/cp of order 0-4, linear, factor '
-                'one-hot/dummy, tensor terms, by-variables; every 8 fits force: a tensor term, a spline with by, a factor, a tensor with by, a spline '
+                'one-hot/dummy, tensor terms, by-variables; every 8 fits force: a tensor term, a spline with by, a factor, a tensor with by, twin terms (same feature and basis, other by / lam), a spline '
                 'with by last) x fit_intercept on/off x weights none/float32; query matrices of 4-8 rows mixing in-range, +-40% outside, far '
                 'extrapolation (up to 1000 training widths), exact end points; factor columns within the fitted levels. A case = one (fitted model, '
-                'query matrix) or one (term, n) grid; rows within 1e-12 of a jump of an order-0/periodic basis or in the S10 gap are not compared (counted).')
+                'query matrix) or one (term, n) grid; rows within 1e-12 of a jump of an order-0/periodic basis or in the clipped periodic sliver (1, 1+1e-9] are not compared (counted).')
     common.standard_prove(res, PROPS_FILE, gen_targets=['links', 'predict'], extra=['Model/C02Check.vo'])
     warnings.simplefilter('ignore')
     cases, meta, goals, gmeta = [], [], [], []
@@ -428,7 +444,7 @@ def run(res):
             res.count('term:' + type(t).__name__ + ('+by' if getattr(t, 'by', None) is not None else ''))
         Xq = gen_query(rng, scn['X'], scn['factor_feats'], rng.randint(4, 8))
         amb = ambiguous_rows(terms, Xq)
-        res.count('rows_skipped(rounding-adjacent or S10 gap)', sum(amb))
+        res.count('rows_skipped(rounding-adjacent or periodic sliver)', sum(amb))
         Xq = Xq[[r for r in range(len(Xq)) if not amb[r]]]
         if len(Xq) == 0:
             continue
